@@ -592,4 +592,43 @@ theorem mean_motion_is_gauss_constant : |(0.9856076686 : ℝ) - 0.01720209895 * 
   rw [abs_lt, e]
   constructor <;> linarith
 
+/-- The true anomaly of the node as the Angle arithmetic `360.0 - omega` / `180.0 - omega` delivers it, for every
+    argument of perihelion in `[0°, 360°)`: `360 − ω ∈ (0°, 360°)` at the ascending node (0 for ω = 0), and `180 − ω`
+    at the descending node, which is NEGATIVE (down to −180°) for every `ω > 180°`.  Both signs and values above 180°
+    occur, and `node_passage_elliptic` holds for all of them (a sign recovered from a test `v > 180` would not). -/
+theorem node_anomaly_values {ω : ℝ} (h0 : 0 ≤ ω) (h1 : ω < 360) :
+    node_anomaly ω false = 180 - ω ∧ node_anomaly ω true = (if ω = 0 then 0 else 360 - ω) := by
+  unfold node_anomaly angle_rsub angle_neg angle_sub angle_add
+  constructor
+  · simp only [Bool.false_eq_true, if_false]
+    have e : ω + -(180.0 : ℝ) = ω - 180 := by norm_num; ring
+    have hin : reduce_deg (ω - 180) = ω - 180 := reduce_deg_small (by rw [abs_lt]; constructor <;> linarith)
+    rw [e, hin, reduce_deg_small (by rw [abs_lt]; constructor <;> linarith)]
+    ring
+  · simp only [if_true]
+    have e : ω + -(360.0 : ℝ) = ω - 360 := by norm_num; ring
+    rw [e]
+    by_cases hz : ω = 0
+    · rw [if_pos hz, hz, zero_sub]
+      -- reduce_deg (-360) = -(0 + 0) = 0
+      have hr : reduce_deg (-360 : ℝ) = 0 := by
+        obtain ⟨j, hj⟩ := reduce_deg_congr (-360 : ℝ)
+        have h360 : ple (360.0 : ℝ) (pabs (-360)) = true := by
+          unfold ple pabs; rw [decide_eq_true_iff]; norm_num
+        unfold reduce_deg
+        simp only [h360, if_true]
+        have hneg : ple (0 : ℝ) (-360) = false := by unfold ple; rw [decide_eq_false_iff_not]; norm_num
+        simp only [hneg, Bool.false_eq_true, if_false, pabs, pmod, ptrunc, imod, ofInt]
+        norm_num
+      rw [hr, neg_zero, reduce_deg_small (by norm_num)]
+    · rw [if_neg hz]
+      have hpos : 0 < ω := lt_of_le_of_ne h0 (Ne.symm hz)
+      have hin : reduce_deg (ω - 360) = ω - 360 := reduce_deg_small (by rw [abs_lt]; constructor <;> linarith)
+      rw [hin, reduce_deg_small (by rw [abs_lt]; constructor <;> linarith)]
+      ring
+
+example : node_anomaly 270 false = -90 := by
+  have := (node_anomaly_values (ω := 270) (by norm_num) (by norm_num)).1
+  rw [this]; norm_num
+
 end Pymeeus.C11
